@@ -216,6 +216,7 @@ class Ctx:
         self.prefix = prefix
         self.trail = []
         self.pc = []
+        self.lazy = []
         self.pc_ids = set()
         self.solver = z3.SimpleSolver()
         self.solver.set("timeout", self.timeout_ms)
@@ -255,9 +256,20 @@ class Ctx:
         self.solver.add(f)
 
     def axiom(self, fact, name=None):
-        """Instance of a trusted axiom / datatype invariant."""
+        """Instance of a trusted axiom / datatype invariant.  Regular-expression membership facts are
+        *lazy*: recorded (so structural queries see them) and added to every proof obligation, but kept out
+        of the incremental path-feasibility solver, whose sat-direction answers they would slow down."""
         if name:
             self.axiom_log.add(name)
+        if not isinstance(fact, bool) and z3.is_app(fact) and fact.decl().kind() == z3.Z3_OP_SEQ_IN_RE:
+            f = simp(fact)
+            if z3.is_true(f):
+                return
+            if tid(f) not in self.pc_ids:
+                self.pc_ids.add(tid(f))
+                self.lazy.append(f)
+                self.pc.append(f)
+            return
         self.add(fact)
 
     def dict_term(self, vals, n):
@@ -324,8 +336,12 @@ class Ctx:
             return True
         if z3.is_false(c):
             return False
+        if tid(c) in self.pc_ids:
+            return True
         self.stats["feas_checks"] += 1
         self.solver.push()
+        for lz in self.lazy:
+            self.solver.add(lz)
         self.solver.add(z3.Not(c))
         r = self.solver.check()
         self.solver.pop()
